@@ -202,6 +202,14 @@ class Ctx:
         print("  " + what)
         sys.stdout.flush()
 
+    def note(self, what):
+        """A disagreement between a specification and the code that lies outside the statement of the property this check decides
+        (extra coverage of the specification): printed and recorded, never a verdict."""
+        if what not in self.notes and len(self.notes) < 20:
+            self.notes.append(what)
+            print("NOTE property=%s (outside the property's statement, not a verdict): %s" % (self.pid, what))
+            sys.stdout.flush()
+
     def known_finding(self, fid, what):
         if fid not in [k[0] for k in self.known]:
             self.known.append((fid, what))
